@@ -598,6 +598,18 @@ package block
 //@   ensures [notifies] sub && sub.res1 == nil && r.manager != nil ==> ntf.count == 1
 //@   crash_inv [mark-after-hand-off] forall k :: r.seenStore.kvHas[k] && !old(r.seenStore.kvHas)[k] ==> sub && sub.res1 == nil
 
+// The reaping rounds run one after another, in the loop itself: SubmitTxs marks a transaction as
+// seen only after the hand-off, so two overlapping rounds would hand the same transaction over
+// twice. (A `go` statement is not executed by the verifier: a round started in the background
+// is a round the loop did not run.)
+//@ func (r *Reaper) Start(ctx)
+//@   property C11
+//@   requires [wiring] r.exec != nil && r.sequencer != nil && r.seenStore != nil && r.logger != nil
+//@   observe st := call SubmitTxs
+//@   modifies r.ctx, durable r.seenStore.kv, durable r.seenStore.kvHas, durable r.seenStore.size
+//@   loop 1 invariant [wakes-up-again] armed(ticker)
+//@   loop 1 invariant [one-round-per-tick] st.count <= 1 && (recvCount("ticker.C") == 1 ==> st.count == 1)
+
 // ---- C09: scanning the DA layer ----------------------------------------------------------------
 
 //@ func (m *Manager) fetchBlobs(ctx, daHeight) (res, err)
